@@ -241,11 +241,19 @@ func Spec() *core.Spec {
 				CheckTree(c, wire.Node{Tag: 0x420046, Type: wire.Boolean, Int: 0}, 0)
 				CheckTree(c, wire.Node{Tag: 0x420046, Type: wire.Boolean, Int: 1}, 0)
 			}},
-			{Name: "ladder-struct", Exhaustive: true, N: func(string) int { return 64 }, Run: func(c *core.Ctx, r *core.Rand, i int) {
-				// empty structures, nested empties, wide structures
+			{Name: "ladder-struct", Exhaustive: true, N: func(string) int { return 32 + 32 + 16 }, Run: func(c *core.Ctx, r *core.Rand, i int) {
+				// empty structures, nested empties, wide structures, deeply nested ones (the format sets no limit)
 				depth := i % 32
 				var n wire.Node
-				if i < 32 {
+				if i >= 64 {
+					depth = []int{32, 33, 34, 40, 64, 100, 200, 400}[(i-64)%8]
+					inner := wire.Node{Tag: 0x420078, Type: wire.Structure, Children: []wire.Node{}}
+					if i >= 72 {
+						inner = wire.Node{Tag: 0x420094, Type: wire.TextString, Bytes: []byte("deep")}
+					}
+					n = wrap(inner, depth)
+					c.Count("deeply_nested_trees", 1)
+				} else if i < 32 {
 					n = wrap(wire.Node{Tag: 0x420078, Type: wire.Structure, Children: []wire.Node{}}, depth)
 				} else {
 					ch := []wire.Node{}
